@@ -644,3 +644,36 @@ def w_iterdel( ctx ):
     if not hits:
         res.ok( ctx.src( 'server/enip/device.py' ), ctx.src( 'server/enip/device.py' ).tree, 'no loop removes from the mapping whose live view it iterates ( %d loops scanned )' % loops )
     return res
+
+
+@rule( 'W-ATTRTABLE', props=( 'C09', 'C03' ), floor=1 )
+def w_attrtable( ctx ):
+    """an Object's attribute table only grows or has entries REPLACED ( one dict store, atomic for every other session's lookup ): nothing in the
+    request-serving modules removes an entry ( pop / del / clear on <object>.attribute ).  A replacement done as "remove, log, store" opens a
+    window in which a request of another session is answered 0x05 for a tag that exists before and after."""
+    res = Result( 'W-ATTRTABLE' )
+    scanned = hits = 0
+    for rel in ( 'server/enip/logix.py', 'server/enip/device.py', 'server/enip/main.py', 'server/enip/ucmm.py', 'server/enip/hart.py' ):
+        if not ctx.model.exists( rel ):
+            continue
+        src = ctx.src( rel )
+        for n in ast.walk( src.tree ):
+            if isinstance( n, ( ast.Call, ast.Delete )):
+                scanned += 1
+            bad = None
+            if isinstance( n, ast.Call ) and isinstance( n.func, ast.Attribute ) and n.func.attr in ( 'pop', 'popitem', 'clear' ) and isinstance( n.func.value, ast.Attribute ) and n.func.value.attr == 'attribute':
+                bad = n
+            if isinstance( n, ast.Delete ) and any( isinstance( t, ast.Subscript ) and isinstance( t.value, ast.Attribute ) and t.value.attr == 'attribute' for t in n.targets ):
+                bad = n
+            if bad is not None:
+                hits += 1
+                res.bad( src, bad, '%s removes an entry of an Object\'s attribute table ( %s )' % ( src.qualname_of( bad ), norm_text( bad )[:60] ),
+                         'between the removal and the store of the replacement the attribute does not exist: a concurrent request of another session is refused with 0x05 ( path destination unknown ) for a tag that is there before and after' )
+    if scanned < 1500:
+        raise AnalysisError( 'W-ATTRTABLE: only %d calls scanned' % scanned )
+    fx = ast.parse( 'instance.attribute.pop( str( att ), None )' ).body[0].value
+    if not ( isinstance( fx.func, ast.Attribute ) and fx.func.attr == 'pop' and fx.func.value.attr == 'attribute' ):
+        raise AnalysisError( 'W-ATTRTABLE fixture did not match' )
+    if not hits:
+        res.ok( ctx.src( 'server/enip/logix.py' ), ctx.src( 'server/enip/logix.py' ).get( 'setup_tag' ), 'no entry of an attribute table is ever removed: replacements are single stores ( %d calls scanned )' % scanned )
+    return res
